@@ -1,6 +1,7 @@
 package worker
 
 import (
+	"io"
 	"errors"
 	"fmt"
 	"math"
@@ -121,6 +122,18 @@ func install(env *stick.Env, rec *recorder) {
 	})
 	flt("up", func(ctx stick.Context, val stick.Value, args ...stick.Value) stick.Value {
 		return strings.ToUpper(OwnStr(val))
+	})
+	flt("lidx", func(ctx stick.Context, val stick.Value, args ...stick.Value) stick.Value {
+		// reads the innermost loop's metadata from the scope, as a user filter may
+		l, ok := ctx.Scope().Get("loop")
+		if !ok || l == nil {
+			return OwnStr(val) + "@-"
+		}
+		idx, err := stick.GetAttr(l, "index")
+		if err != nil {
+			return OwnStr(val) + "@?"
+		}
+		return OwnStr(val) + "@" + OwnStr(idx)
 	})
 	flt("fid", func(ctx stick.Context, val stick.Value, args ...stick.Value) stick.Value { return val })
 	flt("frepr", func(ctx stick.Context, val stick.Value, args ...stick.Value) stick.Value { return Repr(val) })
@@ -294,6 +307,10 @@ func buildEnv(kind, loader string, tpls map[string]string, lfail, yield int) (*b
 		}
 		b.fsDir = dir
 		inner = stick.NewFilesystemLoader(dir)
+	case "rd:dataeof", "rd:onebyte", "rd:chunk7", "rd:zero-reads":
+		// a user-written Loader over the same templates whose Template hands out
+		// a reader with a legal but unusual Read behaviour
+		inner = &readerLoader{tpls: tpls, mode: loader[3:]}
 	default:
 		return nil, fmt.Errorf("unknown loader %q", loader)
 	}
@@ -302,7 +319,12 @@ func buildEnv(kind, loader string, tpls map[string]string, lfail, yield int) (*b
 	case "", "core":
 		b.env = stick.New(b.loader)
 	case "twig":
+		// Another, differently configured escaping extension exists in the same
+		// process (as an application with a second environment would have): it
+		// must not influence this environment.
+		foreignExtension()
 		b.env = twig.New(b.loader)
+		foreignExtension()
 	default:
 		return nil, fmt.Errorf("unknown env %q", kind)
 	}
@@ -341,4 +363,77 @@ func ownText(val stick.Value) string {
 		return stick.CoerceString(inner)
 	}
 	return OwnStr(val)
+}
+
+// readerLoader is a user-defined Loader (memory semantics: unknown names are
+// errors) whose templates are read through readers that use the latitude of the
+// io.Reader contract.
+type readerLoader struct {
+	tpls map[string]string
+	mode string
+}
+
+type readerTemplate struct {
+	name, src, mode string
+}
+
+func (t *readerTemplate) Name() string { return t.name }
+func (t *readerTemplate) Contents() io.Reader {
+	return &oddReader{src: []byte(t.src), mode: t.mode}
+}
+
+func (l *readerLoader) Load(name string) (stick.Template, error) {
+	src, ok := l.tpls[name]
+	if !ok {
+		return nil, os.ErrNotExist
+	}
+	return &readerTemplate{name: name, src: src, mode: l.mode}, nil
+}
+
+// oddReader: dataeof returns the final bytes together with io.EOF; onebyte
+// returns one byte per call; chunk7 seven; zero-reads interleaves (0, nil)
+// results, which the contract allows.
+type oddReader struct {
+	src   []byte
+	mode  string
+	calls int
+}
+
+func (r *oddReader) Read(p []byte) (int, error) {
+	r.calls++
+	if len(p) == 0 {
+		return 0, nil
+	}
+	max := len(p)
+	switch r.mode {
+	case "onebyte":
+		max = 1
+	case "chunk7":
+		max = 7
+	case "zero-reads":
+		if r.calls%2 == 0 {
+			return 0, nil
+		}
+		max = 5
+	}
+	if max > len(p) {
+		max = len(p)
+	}
+	n := copy(p[:max], r.src)
+	r.src = r.src[n:]
+	if len(r.src) == 0 {
+		if r.mode == "dataeof" || n == 0 {
+			return n, io.EOF
+		}
+	}
+	return n, nil
+}
+
+func foreignExtension() {
+	ext := twig.NewAutoEscapeExtension()
+	for k := range ext.Escapers {
+		ext.Escapers[k] = func(string) string { return "<<FOREIGN ESCAPER>>" }
+	}
+	delete(ext.Escapers, "js")
+	ext.Escapers["txt"] = func(string) string { return "<<FOREIGN TXT>>" }
 }
